@@ -519,6 +519,8 @@ pub enum Fault {
     /// the call fails with this error id
     Error(u32),
     Drop,
+    /// the answer is empty
+    DropAll,
     Add,
     Duplicate,
     Swap,
@@ -599,6 +601,7 @@ pub fn make_policy(spec: PolicySpec) -> Policy {
                     Fault::Drop => {
                         list.remove(p);
                     }
+                    Fault::DropAll => list.clear(),
                     Fault::Add => list.push((spec.foreign, Val::N(1))),
                     Fault::Duplicate => {
                         let e = list[p];
